@@ -257,8 +257,11 @@ def campaign(ctx):
                 inst.setdefault("viaext", {"p": ctx.g.value(1)})
             case = {"cls": tag, "schema": root, "inst": inst, "budget": None, "resolver": rspec, "world": world}
             wi = impl.World(world)
-            rv = impl.make_resolver(cls, root, rspec, wi)
-            errs, stop = impl.consume(cls(root, resolver=rv).iter_errors(inst), None)
+            # one case in three on copies in which equal containers are ONE Python object (the same
+            # reference object under two bases, shared subschemas): invisible to JSON, hence to the answer
+            root_i, inst_i = impl.maybe_alias(case, root, inst)
+            rv = impl.make_resolver(cls, root_i, rspec, wi)
+            errs, stop = impl.consume(cls(root_i, resolver=rv).iter_errors(inst_i), None)
             res.note(hash(codec.canon([tag, root, inst])), True, {"cls": tag, "schema": root, "inst": inst, "store": store, "world": world})
             # ---- monitor: the inlined schema
             if flat is not None:
